@@ -176,7 +176,8 @@ def trend_obligations():
 TREND_METHODS_FUNCS = ["Trend.predict", "Trend.jacobian", "Trend.fit",
                        (os.path.join("verde", "coordinates.py"), "get_region"),
                        (os.path.join("verde", "base", "utils.py"), "n_1d_arrays")]
-TREND_METHODS_THEOREMS = ["src_Trend_predict_eq", "src_Trend_predict_unfitted", "src_Trend_jacobian_eq",
+TREND_METHODS_THEOREMS = ["src_Trend_predict_bcast", "src_Trend_predict_eq", "src_Trend_predict_scalar_east",
+                          "src_Trend_predict_scalar_north", "src_Trend_predict_unfitted", "src_Trend_jacobian_eq",
                           "src_Trend_jacobian_shapes", "src_Trend_fit_eq", "src_Trend_fit_rejects"]
 TREND_METHODS_IMPORTS = "From Verde Require Import Model.Trend Proofs.TrendProofs Proofs.PyLiteBridge."
 
